@@ -220,6 +220,10 @@ fn form() -> BoxedStrategy<Form> {
     .boxed()
 }
 
+fn return_op(o: Op) -> Op {
+    o
+}
+
 fn cases() -> impl Strategy<Value = Case> {
     let sep = proptest::option::of(proptest::sample::select(&[Sep::Space, Sep::Comma, Sep::Slash][..]));
     (form(), 0u8..9, -8i32..=8, atom(), sep, form(), proptest::option::of(any::<bool>()), proptest::collection::vec(form(), 0..3), any::<bool>(), any::<usize>()).prop_map(|(l, k, i, v, s, f2, b, zs, module_form, pick)| {
@@ -233,7 +237,19 @@ fn cases() -> impl Strategy<Value = Case> {
             4 => Op::Join(f2, s, b),
             5 => {
                 let e = model(&l).elems;
-                if !e.is_empty() && pick % 3 != 0 { Op::Index(e[pick % e.len()].clone()) } else { Op::Index(v) }
+                if let (Form::Map(m), 1) = (&l, pick % 4) {
+                    // a pair with an existing key and another value: not an element of the map
+                    if !m.is_empty() {
+                        let (key, _) = &m[pick / 4 % m.len()];
+                        return_op(Op::Index(format!("({key} zz-other)")))
+                    } else {
+                        Op::Index(v)
+                    }
+                } else if !e.is_empty() && pick % 3 != 0 {
+                    Op::Index(e[pick % e.len()].clone())
+                } else {
+                    Op::Index(v)
+                }
             }
             6 => Op::Zip(zs),
             7 => Op::Separator,
